@@ -110,6 +110,12 @@ def explore(seed, n, opts):
         wh = (conc.LAST.get("wheres") or [[]])[0]
         # every position inside the publication of a resolution and inside the hand-over of a build, plus a sample
         hot = [i for i, f in enumerate(wh) if f in ("resolve", "__missing__", "ensure_compiled", "compile", "first_entry")]
+        # the hand-over of a build: the last events of `_compile` / `compile` / `ensure_compiled` and whatever they call
+        # just before (helpers that install the generated entry point, whatever their names)
+        ends = [i for i, f in enumerate(wh) if f in ("_compile", "compile", "ensure_compiled")]
+        if ends:
+            hot += [i for i in range(max(0, ends[-1] - 30), ends[-1] + 3) if i not in hot]
+            hot.sort()
         hot = [i for i in hot if i <= n0]
         if opts.get("exhaustive"):
             cuts = positions
